@@ -57,3 +57,15 @@ Proof.
   intros cfg q t z a' v HQ Hff Hs HR H1 Hn. unfold m_env_find. rewrite (spelled_compiles_ff cfg q t z a' HQ Hff Hs HR). cbn [bind]. apply find_filter_free; assumption.
 Qed.
 Print Assumptions C01_every_spelling.
+
+(* ... and from the ABNF itself (Proofs/AbnfSpell.v): for every string the grammar derives that contains no "?" there is a query q - the one it
+   spells - such that find(string, v) is the RFC nodelist of q, in every environment whose integer range contains the integers it mentions *)
+From JP Require Import Spec.Rfc9535Grammar Proofs.AbnfSpell.
+Theorem C01_abnf_no_filter : forall s, rfc_query s -> ~ In 63%N s ->
+  exists q B, filter_free q = true /\ forall cfg v, min_idx cfg <= - B -> B <= max_idx cfg -> (1 <= max_depth cfg)%nat -> (nesting v <= max_depth cfg)%nat ->
+    m_env_find cfg s v = Ok (sem (reg cfg) (rx cfg) q v).
+Proof.
+  intros s H Hn. destruct (abnf_no_filter_compiles s H Hn) as (q & B & Hff & K). exists q, B. split; [exact Hff|]. intros cfg v H1 H2 H3 H4.
+  unfold m_env_find. rewrite (K cfg (conj H1 H2)). cbn [bind]. apply find_filter_free; assumption.
+Qed.
+Print Assumptions C01_abnf_no_filter.
